@@ -266,12 +266,23 @@ impl<T> RcInner<T> {
     #[inline]
     pub(crate) fn is_not_destructed(&self) -> bool {
         vy!(108, self as *const Self, 0);
+        // The snapshot handed out on success is protected only by the caller's critical section.
+        // Leave a trace of this access in the stamp, as a decrement would: otherwise the recursive
+        // destruction that starts from an old, unlinked parent takes the object for untouched and
+        // destructs it under the caller's feet.
+        let epoch = global_epoch();
+        vy!(1108, self as *const Self, epoch);
         let mut old = State::from_raw(self.state.load(Ordering::SeqCst));
-        while !old.destructed() && old.strong() == 0 {
+        while !old.destructed() {
+            let new = if old.strong() == 0 {
+                old.add_strong(1)
+            } else {
+                old
+            };
             vy!(109, self as *const Self, old.as_raw());
             match self.state.compare_exchange(
                 old.as_raw(),
-                old.add_strong(1).as_raw(),
+                new.with_epoch(epoch).as_raw(),
                 Ordering::SeqCst,
                 Ordering::SeqCst,
             ) {
@@ -279,7 +290,7 @@ impl<T> RcInner<T> {
                 Err(curr) => old = State::from_raw(curr),
             }
         }
-        !old.destructed()
+        false
     }
 }
 
